@@ -340,7 +340,7 @@ def s_loop(F, R):
                 R.ok("S-loop", key + "/" + pp(x["iter"])[:40], "iterator over a finite collection")
             elif k == "While":
                 c = unblock(x["cond"])
-                ok = c.get("k") == "Binary" and c["op"] == "Gt"
+                ok = c.get("k") == "Binary" and c["op"] in ("Gt", "Lt", "Ge", "Le", "Ne")
                 R.check(ok, "S-loop", key + "/" + pp(c)[:50],
                         "%s: loop condition `%s` is not a `remaining > accounted` counter loop" % (f["root"], pp(c)[:80]), where=loc(x))
             else:
